@@ -52,11 +52,16 @@ def read_rows(path, sheet=1):
         return "raised-" + type(error).__name__, repr(error)
 
 
-def write_cells(path, cells, sheets_before=0):
+def write_cells(path, cells, sheets_before=0, date_1904=False):
     """cells: list of (kind, value); laid out row-major in rows of WIDTH cells."""
     import xlsxwriter
 
     workbook = harness.new_workbook(path)
+    if date_1904:
+        # the other date system of the file format (day 0 is 1904-01-01, workbooks from Excel for Mac): dates denote the same days
+        workbook.close()
+        workbook = xlsxwriter.Workbook(path, {"date_1904": True})
+        workbook.set_properties({"created": datetime.datetime(2020, 1, 1, 0, 0, 0), "author": "cutplace-verif"})
     date_format = workbook.add_format({"num_format": "yyyy-mm-dd hh:mm:ss"})
     time_format = workbook.add_format({"num_format": "hh:mm:ss"})
     for _ in range(sheets_before):
@@ -78,8 +83,8 @@ def write_cells(path, cells, sheets_before=0):
 
 
 def check_cells(cells, part, group, case_of):
-    path = path_for(group)
-    write_cells(path, cells)
+    path = path_for(group.replace("@", "_"))
+    write_cells(path, cells, date_1904=group.endswith("@1904"))
     outcome, rows = read_rows(path)
     part.transitions += 1
     if outcome != "rows":
@@ -224,7 +229,7 @@ def judge_sheets(case, part):
 
 def judge_writer(case, part):
     m = harness.modules()
-    table = case["table"] if "long" not in case else [["y" * case["long"], "z"]]
+    table = case["table"] if "long" not in case and "lines" not in case else [["y" * case["long"], "z"]] if "long" in case else [[("ab\r\n\tc" * case["lines"])[:32767], "z"]]
     path = path_for("writer")
     part.evaluations += 1
     part.nontrivial += 1
@@ -356,6 +361,9 @@ def run(ctx):
         for clock in clocks:
             boundary.append(("d", datetime.datetime.combine(datetime.date(year, 1 + index % 12, 1 + index % 28), clock)))
     jobs.append(("date+time", boundary))
+    first_day = datetime.date(1904, 1, 2)
+    jobs.append(("date+time@1904", [cell for cell in boundary if cell[1].date() >= first_day][:200]))
+    jobs.append(("dates@1904", [cell for group, cells in jobs if group == "dates" for cell in cells if cell[1] >= first_day][:200]))
     ctx.pmap(MOD, "cells_job", jobs, label="C16 cells")
     misc = []
     for count in (1, 2, 3):
@@ -372,6 +380,9 @@ def run(ctx):
         misc.append({"group": "writer", "table": [[cell, "z"]], "api": "write_row", "cells": [], "what": name})
     for length in (32766, 32767, 32768, 40000):
         misc.append({"group": "writer", "long": length, "api": "write_row", "cells": [], "what": "%d-characters" % length})
+    # cells below the size limit that hold many line breaks and tabs (their stored form is longer, the limit counts characters)
+    for lines in (1500, 4000, 5461):
+        misc.append({"group": "writer", "lines": lines, "api": "write_row", "cells": [], "what": "%d-lines" % lines})
     # a row the writer refuses (a cell beyond the size limit in its second column) between two ordinary rows: the others read back as written
     misc.append({"group": "writer", "refused_between": True, "table": [["a", "b", "c"], ["d", "e"]], "api": "write_row", "cells": [], "what": "row-refused-in-between"})
     # sparse sheets: every table of up to 4 rows x 3 columns over {empty, 'a'} (quick: up to 3 x 3), cells stored only where not empty
